@@ -21,7 +21,10 @@ var c10GroupVocab = []string{"container", "a", "ab", "abc", "b", "x", "y", "tier
 type c10Spec struct {
 	Sel     string `json:"sel"`
 	RangeNs int64  `json:"range"`
-	Kind    string `json:"kind"` // plain | vec | unwrap | binop
+	Kind    string `json:"kind"` // plain | vec | unwrap | binop | presence
+	// RangeOp: presence kind only — a range operation over `| unwrap weight` whose values
+	// are not modelled; only which label sets have a series at each step is judged.
+	RangeOp string `json:"range_op,omitempty"`
 	SelB    string `json:"sel_b,omitempty"`
 	// Pipe is appended to every selector (labels derived from the line).
 	Pipe string `json:"pipe,omitempty"`
@@ -81,6 +84,12 @@ func (s c10Spec) Query() string {
 			q = s.Outer.VecOp + " " + kw + " (" + strings.Join(s.Outer.Labels, ", ") + ") (" + q + ")"
 		}
 		return q
+	case "presence":
+		pre := s.RangeOp + "("
+		if s.RangeOp == "quantile_over_time" {
+			pre += "0.5, "
+		}
+		return pre + s.Sel + " | unwrap weight [" + r + "])" + grp
 	case "binop":
 		return "sum" + grp + " (count_over_time(" + s.Sel + "[" + r + "])) " + s.BinOp + " sum" + grp + " (count_over_time(" + s.SelB + "[" + r + "]))"
 	}
@@ -93,8 +102,17 @@ func (propC10) Gen(r *Rng, run uint64, tier string) *Plan {
 	nsteps := int64(1 + r.Intn(6))
 	rng := []int64{5, 10, 20, 60}[r.Intn(4)] * sec
 	start := BaseNs
+	if r.Bool(0.03) {
+		// a clock that was never set: the first windows begin before the Unix epoch
+		start = int64(1+r.Intn(3)) * 60 * sec
+		p.Tags["near_epoch"] = "1"
+	}
 	end := start + nsteps*step
-	spec := WorldSpec{NMin: 1, NMax: 6, RecMin: 1, RecMax: 12, Lo: start - rng + 1, Hi: end - 1,
+	lo := start - rng + 1
+	if lo < 1 {
+		lo = 1
+	}
+	spec := WorldSpec{NMin: 1, NMax: 6, RecMin: 1, RecMax: 12, Lo: lo, Hi: end - 1,
 		Msg: "const", AllNamed: true, NoHuge: true, OffSecond: true, Labels: "prefix"}
 	if r.Bool(0.2) {
 		spec.Msg = "token"
@@ -117,7 +135,13 @@ func (propC10) Gen(r *Rng, run uint64, tier string) *Plan {
 	}
 	p.World = GenWorld(r.Sub("world"), spec)
 	sel, _ := genSelection(r.Sub("sel"), &p.World)
-	qs := c10Spec{Sel: sel, RangeNs: rng, Pipe: pipe, Kind: []string{"plain", "vec", "vec", "vec", "unwrap", "binop"}[r.Intn(6)]}
+	qs := c10Spec{Sel: sel, RangeNs: rng, Pipe: pipe, Kind: []string{"plain", "vec", "vec", "vec", "unwrap", "binop", "presence"}[r.Intn(7)]}
+	if qs.Kind == "presence" {
+		qs.RangeOp = Pick(r, []string{"quantile_over_time", "quantile_over_time", "avg_over_time", "stddev_over_time", "first_over_time", "last_over_time", "sum_over_time", "min_over_time"})
+		if pipe != "" {
+			qs.Kind, qs.RangeOp = "plain", ""
+		}
+	}
 	if qs.Kind == "unwrap" && pipe != "" {
 		qs.Kind = "plain"
 	}
@@ -138,7 +162,7 @@ func (propC10) Gen(r *Rng, run uint64, tier string) *Plan {
 		}
 		for k := 1 + r.Intn(3); k > 0; k-- {
 			l := Pick(r, vocab)
-			if !seen[l] && !(qs.Kind == "unwrap" && l == "weight") {
+			if !seen[l] && !((qs.Kind == "unwrap" || qs.Kind == "presence") && l == "weight") {
 				seen[l] = true
 				qs.Labels = append(qs.Labels, l)
 			}
@@ -167,6 +191,9 @@ func (propC10) Gen(r *Rng, run uint64, tier string) *Plan {
 				}
 			}
 			qs.Outer = o
+		}
+		if qs.Kind == "presence" {
+			qs.Without = false
 		}
 		if qs.Kind == "unwrap" && qs.Without {
 			// without(...) on an unwrap range: name the unwrapped label and the line
@@ -294,7 +321,7 @@ func c10Side(t *testing.T, p *Plan, spec c10Spec, sel string, pipe string, steps
 				panic("verifsim: C10 workload hit a window edge")
 			}
 			lbl := e.labels
-			if spec.Kind == "unwrap" {
+			if spec.Kind == "unwrap" || spec.Kind == "presence" {
 				w, ok := e.labels["weight"]
 				if !ok {
 					continue
@@ -325,11 +352,14 @@ func c10Side(t *testing.T, p *Plan, spec c10Spec, sel string, pipe string, steps
 		}
 		vec := map[string]c10Val{}
 		switch spec.Kind {
-		case "plain", "unwrap":
+		case "plain", "unwrap", "presence":
 			for k, in := range inner {
 				v := float64(in.n)
 				if spec.Kind == "unwrap" {
 					v = in.max
+				}
+				if spec.Kind == "presence" {
+					v = 0 // values are not modelled
 				}
 				vec[k] = c10Val{in.labels, v}
 			}
@@ -555,6 +585,17 @@ func (propC10) Check(t *testing.T, p *Plan, st *Stats) *Violation {
 			}
 		}
 		// (3) the series are exactly the distinct (projected) label sets, with their values.
+		if spec.Kind == "presence" {
+			// only which label sets have a point at which step is judged
+			blank := make([]CSeries, len(got.Series))
+			for i, gs := range got.Series {
+				blank[i] = CSeries{Labels: gs.Labels, Key: gs.Key}
+				for _, pt := range gs.Points {
+					blank[i].Points = append(blank[i].Points, CPoint{T: pt.T, V: "0"})
+				}
+			}
+			got = &Canon{Type: got.Type, Series: blank}
+		}
 		gotR := (&Canon{Series: got.Series}).Render()
 		expR := expCanon.Render()
 		if gotR != expR {
@@ -603,6 +644,7 @@ func (propC10) Check(t *testing.T, p *Plan, st *Stats) *Violation {
 				sort.Strings(lbls)
 				st.Probe("kind_" + spec.Kind + spec.BinOp)
 				st.ProbeIf(spec.Pipe != "", "labels_derived_from_line")
+				st.ProbeIf(p.Tags["near_epoch"] == "1", "windows_begin_before_the_epoch")
 				st.ProbeIf(spec.Outer != nil, "nested_vector_aggregation")
 				st.ProbeIf(spec.PipeB != "", "typed_vs_string_json_operands")
 				st.Signature(fmt.Sprintf("%s%s|%s|%v|%v|inst=%s|series=%d|ents=%d", spec.Kind, spec.BinOp, spec.VecOp, spec.Without, lbls, p.Tags["instant"], nExp, nEnts))
